@@ -70,6 +70,19 @@ func (x *Exec) callCommon(fr *frame, ins ssa.CallInstruction, c *ssa.CallCommon,
 		args = append(args, x.val(fr, a))
 		argVals = append(argVals, a)
 	}
+	if _, isBuiltin := c.Value.(*ssa.Builtin); !isBuiltin {
+		// only a callee that may write memory can make an argument reachable from memory
+		if x.callMayWrite(ins) {
+			for _, a := range args {
+				x.vc.escape(a)
+			}
+		}
+	} else if b := c.Value.(*ssa.Builtin); b.Name() == "append" && len(args) > 1 {
+		// the appended elements are stored in the result
+		if _, isStr := c.Args[1].Type().Underlying().(*types.Basic); !isStr {
+			x.vc.escape(Val{args[1][0]})
+		}
+	}
 	resT := c.Signature().Results()
 	cs := &CallSite{Instr: ins, Fn: fr.fn, Depth: fr.depth, Callee: name, Reach: r, Args: args, ArgVals: argVals, IsDefer: isDefer, Pos: ins.Pos(), StBefore: st.clone()}
 	if x.trace != nil {
@@ -197,7 +210,15 @@ func (x *Exec) havocCall(name string, resT *types.Tuple, args []Val, argVals []s
 		x.vc.S.fact(r, sx(">=", na, st.Alloc))
 		x.vc.allocP[na] = []string{st.Alloc}
 		st.Alloc = na
-		x.vc.havocMem(st, "false")
+		// a callee cannot touch an object whose address it was never given and that is not
+		// reachable from memory (allocated here, not escaped)
+		var keep []string
+		for _, a := range x.vc.allocs {
+			if !x.vc.escaped[a.ref] {
+				keep = append(keep, eq("r", a.ref))
+			}
+		}
+		x.vc.havocMem(st, or(keep...))
 		x.vc.havocMaps(st)
 	} else {
 		// may allocate (results are fresh objects) but does not write existing memory
@@ -361,6 +382,7 @@ func (x *Exec) appendBuiltin(c *ssa.CallCommon, args []Val, st *State, r string)
 	ref := x.vc.allocWith(st, "append", mulc(newLen, es), func(o string) string {
 		return ite(sx("<", o, oldCells), x.vc.read(mem, s[0].T, add(s[1].T, o)), srcRead(sub(o, oldCells)))
 	})
+	x.vc.noteAlloc(ref, c.Args[0].Type().Underlying().(*types.Slice).Elem())
 	return Val{ic(ref), ic("0"), ic(newLen), ic(newLen)}
 }
 
